@@ -252,3 +252,12 @@ Theorem C11_injected_blob_code_is_model : forall sig ts,
   gen_injected_blob sig (u64 ts) = Some (be 8 (u64 ts) ++ sig).
 Proof. exact gen_injected_blob_is_model. Qed.
 Print Assumptions C11_injected_blob_code_is_model.
+
+(* non-vacuity: on a well-formed blob (timestamp, hash 4, ecdsa 3, a 3-byte signature) both sides accept with the same
+   values; with one trailing byte both reject *)
+Example C11_note_signature_reader_example :
+  nsig_result (gen_nsig (be 8 1700000000000 ++ [x04; x03] ++ be 2 3 ++ [x30; x01; x02]))
+    = Some (1700000000000, x03, [x30; x01; x02])
+  /\ parse_note_signature (be 8 1700000000000 ++ [x04; x03] ++ be 2 3 ++ [x30; x01; x02]) = Some (1700000000000, x03, [x30; x01; x02])
+  /\ nsig_result (gen_nsig (be 8 1700000000000 ++ [x04; x03] ++ be 2 3 ++ [x30; x01; x02; x00])) = None.
+Proof. repeat split; vm_compute; reflexivity. Qed.
